@@ -53,18 +53,18 @@ type Result struct {
 }
 
 type Ctx struct {
-	T        *testing.T
-	Property string
-	Harness  string
-	Mode     string
-	Tier     string
-	Seed     int64
-	Worker   int
-	Workers  int
-	Deadline time.Time
-	Res      *Result
-	distinct map[uint64]struct{}
-	Known    []KnownFinding
+	T         *testing.T
+	Property  string
+	Harness   string
+	Mode      string
+	Tier      string
+	Seed      int64
+	Worker    int
+	Workers   int
+	Deadline  time.Time
+	Res       *Result
+	distinct  map[uint64]struct{}
+	Known     []KnownFinding
 	ReplayDir string
 	Scratch   string
 	seenSig   map[string]int
@@ -175,17 +175,17 @@ func (c *Ctx) matchKnown(property, sig string) string {
 // ---------------------------------------------------------------------------
 
 type ReplayFile struct {
-	Property string          `json:"property"`
-	Harness  string          `json:"harness"`
-	Mode     string          `json:"mode"`
-	Tier     string          `json:"tier"`
-	RunSeed  int64           `json:"run_seed"`
-	Sig      string          `json:"sig"`
-	Detail   string          `json:"detail"`
-	Case     json.RawMessage `json:"case"`
-	Tape     []int           `json:"tape"`
-	Minimised bool           `json:"minimised"`
-	Trace    []string        `json:"trace,omitempty"` // human readable schedule / fault / event excerpt
+	Property  string          `json:"property"`
+	Harness   string          `json:"harness"`
+	Mode      string          `json:"mode"`
+	Tier      string          `json:"tier"`
+	RunSeed   int64           `json:"run_seed"`
+	Sig       string          `json:"sig"`
+	Detail    string          `json:"detail"`
+	Case      json.RawMessage `json:"case"`
+	Tape      []int           `json:"tape"`
+	Minimised bool            `json:"minimised"`
+	Trace     []string        `json:"trace,omitempty"` // human readable schedule / fault / event excerpt
 }
 
 var pathNoise = regexp.MustCompile(`/[A-Za-z0-9_./-]*/(sstable_[a-z]*)[0-9]*`)
